@@ -1,0 +1,64 @@
+// SPDX-FileCopyrightText: 2026 The Pion community <https://pion.ly>
+// SPDX-License-Identifier: MIT
+
+//go:build verif
+
+package gcc
+
+import (
+	"time"
+
+	"github.com/pion/interceptor/internal/cc"
+)
+
+// VerifOnDelayStats feeds one DelayStats (usage, state) to the rate controller of e,
+// exactly as the overuse detector would, and returns the controller's target afterwards.
+func VerifOnDelayStats(e *SendSideBWE, use int, st int) int {
+	e.delayController.rateController.onDelayStats(DelayStats{Usage: usage(use), State: state(st)})
+
+	return e.delayController.rateController.target
+}
+
+// VerifSetReceivedRate sets the latest received rate seen by the rate controller.
+func VerifSetReceivedRate(e *SendSideBWE, rate int) {
+	e.delayController.rateController.onReceivedRate(rate)
+}
+
+// VerifLossUpdate calls the loss controller with n acknowledgments of which lost are
+// lost, optionally re-arming its 200 ms increase/decrease timers first, and
+// returns the loss controller's bitrate before and after.
+func VerifLossUpdate(e *SendSideBWE, n, lost int, rearm bool) (int, int) {
+	lc := e.lossController
+	lc.lock.Lock()
+	before := lc.bitrate
+	if rearm {
+		lc.lastIncrease = time.Time{}
+		lc.lastDecrease = time.Time{}
+	}
+	lc.lock.Unlock()
+	acks := make([]cc.Acknowledgment, n)
+	for i := range acks {
+		if i >= lost {
+			acks[i].Arrival = time.Unix(1, 0)
+		}
+	}
+	lc.updateLossEstimate(acks)
+	lc.lock.Lock()
+	defer lc.lock.Unlock()
+
+	return before, lc.bitrate
+}
+
+// VerifTransition exposes state.transition.
+func VerifTransition(st, use int) int { return int(state(st).transition(usage(use))) }
+
+// VerifClampInt exposes clampInt.
+func VerifClampInt(b, lo, hi int) int { return clampInt(b, lo, hi) }
+
+// VerifOnDelayStatsPeek returns the rate controller's current target.
+func VerifOnDelayStatsPeek(e *SendSideBWE) int {
+	e.delayController.rateController.lock.Lock()
+	defer e.delayController.rateController.lock.Unlock()
+
+	return e.delayController.rateController.target
+}
